@@ -483,6 +483,136 @@ def py_signature(o):
 
 
 # ----------------------------------------------------------------------------
+# (a') execution histories: the real status.csv after EVERY poll
+# ----------------------------------------------------------------------------
+HCASE_TY = "Rows.hcase"
+QUICK_HIST, THOROUGH_HIST = 45, 700
+PARAM_PLANS = [[], [], [["X", 1]], [["X", 2], ["Y", "a"]], [["SIZE", 10], ["ITER", 3], ["NOTE", "p:q;r"]],
+               [["k", "é 漢"]], [["K", "[/x]"]]]
+
+
+def _record_view(dag):
+    """adjacency table and record fields of the REAL graph, in `values` order."""
+    keys = list(dag.values.keys())
+    idx = {k: i for i, k in enumerate(keys)}
+    adj = [[idx[k], [idx[c] for c in cs]] for k, cs in dag.adjacency_table.items()]
+    recs = []
+    for k in keys:
+        if k == "_source":
+            recs.append(None)
+            continue
+        rec = dag.values[k]
+        times = [rec.run_time, rec.elapsed_time, rec.time_start, rec.time_submitted, rec.time_end]
+        recs.append({"name": "{}".format(rec.name), "jobids": ["{}".format(j) for j in rec.jobid],
+                     "ws": rec.workspace.value, "state": rec.status.name, "times": [str(x) for x in times],
+                     "restarts": int(rec.restarts),
+                     "params": [["{}".format(k_), "{}".format(v_)] for k_, v_ in rec.params.items()]})
+    return adj, recs
+
+
+def run_one_history(nodes, cfg, plan, rng, profile, max_polls, scripted_pins=None):
+    """One history against the real ExecutionGraph + scripted scheduler
+    (harness/exec_harness.py); after EVERY poll the real write_status /
+    Conductor.get_status pair runs, as Conductor.monitor_study does.
+    -> [(case description, observation)] one per poll."""
+    from harness import exec_harness as XH
+    I = impl()
+    d = os.path.join(WORKDIR, "hist_status")
+    shutil.rmtree(d, ignore_errors=True)
+    os.makedirs(d)
+    out, subs = [], []
+
+    def after_poll(dag, case, k):
+        o = {"adj": None, "recs": None, "text": None, "parsed": "other:not-run", "error": None,
+             "table": None, "subs": None}
+        try:
+            if k == 0:
+                for i, ps in enumerate(plan):
+                    if ps and ("n%d" % i) in dag.values:
+                        dag.values["n%d" % i].add_params([(a, b) for a, b in ps])
+            for e in case["polls"][k]["events"]:
+                if e[0] == "submit" and e[4] is not None:
+                    subs.append([e[1] + 1, int(e[4])])
+            o["subs"] = [list(x) for x in subs]
+            dag.write_status(d)
+            o["adj"], o["recs"] = _record_view(dag)
+            with open(os.path.join(d, "status.csv"), "r", newline="", encoding="utf-8") as f:
+                o["text"] = f.read()
+            holder = {}
+
+            def call():
+                holder["r"] = I["Conductor"].get_status(d)
+                return holder["r"]
+            o["parsed"] = canon_parsed(call)
+            o["table"] = holder.get("r")
+        except Exception as e:
+            o["error"] = "%s: %s" % (type(e).__name__, e)
+        out.append(o)
+
+    case = XH.run_history(nodes, cfg, rng, profile=profile, max_polls=max_polls, after_poll=after_poll,
+                          root=os.path.join(WORKDIR, "hist_ws"), scripted_pins=scripted_pins)
+    pins = XH.pins_of(case)
+    res = []
+    for k, o in enumerate(out):
+        descr = {"stream": "history", "shape": "history/" + profile, "poll": k,
+                 "status_after_poll": case["polls"][k]["status"],
+                 "hist": {"nodes": nodes, "cfg": cfg, "plan": plan, "profile": profile, "pins": pins[:k + 1]}}
+        res.append((descr, o))
+    shutil.rmtree(d, ignore_errors=True)
+    return res, case
+
+
+def history_polls(rng, nhist):
+    from harness import exec_harness as XH
+    res, hstat = [], {"histories": 0, "polls": 0, "end": {}, "profile": {}, "submissions": 0}
+    for _ in range(nhist):
+        shape, nodes = XH.gen_graph(rng, nmax=7)
+        cfg = XH.gen_cfg(rng, len(nodes), dry=(rng.random() < 0.05))
+        plan = [rng.choice(PARAM_PLANS) for _ in nodes]
+        profile = rng.choice(sorted(XH.PROFILES))
+        polls, case = run_one_history(nodes, cfg, plan, rng, profile, rng.choice([3, 6, 10, 14]))
+        res.extend(polls)
+        hstat["histories"] += 1
+        hstat["polls"] += len(polls)
+        hstat["end"][case["end"]] = hstat["end"].get(case["end"], 0) + 1
+        hstat["profile"][profile] = hstat["profile"].get(profile, 0) + 1
+        if polls and polls[-1][1]["subs"]:
+            hstat["submissions"] += len(polls[-1][1]["subs"])
+    return res, hstat
+
+
+def g_hcase(o):
+    subs = common.g_list([common.g_pair(common.g_nat(x), common.g_nat(j)) for x, j in (o["subs"] or [])])
+    return "(%s, %s)" % (g_case(o), subs)
+
+
+def classify_hist(ck, tag, obs):
+    usable = [(c, o) for c, o in obs if o["error"] is None]
+    for c, o in obs:
+        if o["error"] is not None:
+            ck.mismatch("the harness could not observe the status table after a poll: " + o["error"], strip_case(c))
+    bad, errs = evaluate(tag, usable, "hcase_ok", ty=HCASE_TY, lit=g_hcase)
+    for e in errs:
+        ck.mismatch("coqc failed on cases file", None, e[1])
+    if bad:
+        sub = [usable[i] for i in bad]
+        agree_only, errs2 = evaluate(tag + "_why", sub, "hcase_monitor", ty=HCASE_TY, lit=g_hcase)
+        for e in errs2:
+            ck.mismatch("coqc failed on cases file", None, e[1])
+        for j, (c, o) in enumerate(sub):
+            if j not in agree_only:
+                ck.mismatch("status.csv / get_status after a poll differ from render(status_rows)/parse of the "
+                            "implementation's own records", strip_case(c),
+                            "impl text=%r parsed=%r" % (o["text"], o["parsed"]))
+            else:
+                ck.violation("after poll %d the status table is not one row per step instance with its current "
+                             "fields, or its Job ID column is not the id of the instance's last successful "
+                             "submission (adapter trace %s): status.csv=%r"
+                             % (c["poll"], json.dumps(o["subs"]), (o["text"] or "")[:600]), strip_case(c))
+    return usable
+
+
+# ----------------------------------------------------------------------------
 # (d) structural check of the lock discipline
 # ----------------------------------------------------------------------------
 def _parents(tree):
@@ -544,16 +674,24 @@ def lock_structure(repo):
             if isinstance(node, ast.With) and not lock_ok:
                 for item in node.items:
                     ce = item.context_expr
+                    lname, can_time_out = None, True
                     if (isinstance(ce, ast.Call) and isinstance(ce.func, ast.Attribute)
                             and ce.func.attr == "acquire" and isinstance(ce.func.value, ast.Name)):
-                        lk = assigns.get(ce.func.value.id, [])
+                        lname = ce.func.value.id                      # with lock.acquire(..):
+                        can_time_out = bool(ce.args) or any(k.arg in ("timeout", None) for k in ce.keywords)
+                    elif isinstance(ce, ast.Name):
+                        lname, can_time_out = ce.id, False            # with lock:   (blocks, never Timeout)
+                    if lname is not None:
+                        lk = assigns.get(lname, [])
                         if (len(lk) == 1 and isinstance(lk[0], ast.Call) and isinstance(lk[0].func, ast.Name)
-                                and lk[0].func.id == "FileLock" and len(lk[0].args) == 1
+                                and lk[0].func.id == "FileLock" and len(lk[0].args) == 1 and not lk[0].keywords
                                 and isinstance(lk[0].args[0], ast.Name)
                                 and len(assigns.get(lk[0].args[0].id, [])) == 1):
                             lp = _join_const(assigns[lk[0].args[0].id][0])
                             if lp and lp[1] == ".status.lock" and lp[0] == sp[0]:
                                 lock_ok = True
+                                if not can_time_out:
+                                    try_ok = True
             if isinstance(node, ast.Try) and lock_ok and not try_ok:
                 for h in node.handlers:
                     t = h.type
@@ -692,6 +830,150 @@ def stress(secs, seed, readers=2):
 
 
 # ----------------------------------------------------------------------------
+# (b') the Timeout branches, deterministically, against Lock.scenario_model
+# ----------------------------------------------------------------------------
+LOCK_CASE_TY = "LockCase.lock_case"
+_HOLDER = ("import sys\nfrom filelock import FileLock\nl = FileLock(sys.argv[1])\nl.acquire()\n"
+           "print('held', flush=True)\nsys.stdin.readline()\nl.release()\n")
+
+
+def timeout_scenario(real_timeout, seed):
+    """A helper process holds .status.lock; the real get_status / write_status
+    run into their Timeout branches; then the lock is released and they run
+    normally.  -> (obs dict | None, error text | None).  With real_timeout the
+    code's own 10 s are waited for; otherwise FileLock.acquire is capped (a stub
+    like the one for time.sleep: same code path, shorter wait)."""
+    import threading
+    import maestrowf.conductor as CM
+    I = impl()
+    EG = I["EG"]
+    d = os.path.join(WORKDIR, "timeout")
+    shutil.rmtree(d, ignore_errors=True)
+    os.makedirs(d)
+    rng = random.Random(seed)
+    gs = []
+    for tag, n, st, rs in (("OLD", rng.choice([1, 3, 9]), "RUNNING", 0), ("NEW", rng.choice([2, 5, 12]), "FINISHED", 2)):
+        case = _stress_case(tag, n, st, rs)
+        g = build_graph(case)
+        apply_records(g, case["nodes"], "final")
+        gs.append(g)
+    gA, gB = gs
+    obs = {"answers": [], "mid": None, "end": None, "old": None, "new": None, "waited": []}
+    real_FL = EG.FileLock
+
+    class _ShortLock(real_FL):
+        def acquire(self, timeout=None, *a, **k):
+            if timeout is not None and timeout > 0.6:
+                timeout = 0.6
+            return real_FL.acquire(self, timeout, *a, **k)
+    holder = None
+    try:
+        gA.write_status(d)
+        stat = os.path.join(d, "status.csv")
+
+        def text():
+            with open(stat, "r", newline="", encoding="utf-8") as f:
+                return f.read()
+        obs["old"] = text()
+        env = dict(os.environ, PYTHONPATH=common.REPO + ":" + common.VERIF)
+        holder = subprocess.Popen([sys.executable, "-c", _HOLDER, os.path.join(d, ".status.lock")],
+                                  stdin=subprocess.PIPE, stdout=subprocess.PIPE, text=True, env=env)
+        if holder.stdout.readline().strip() != "held":
+            return None, "the lock holder process did not start"
+        if not real_timeout:
+            EG.FileLock = _ShortLock
+            CM.FileLock = _ShortLock
+        res = {}
+
+        def reader():
+            t0 = time.time()
+            res["r"] = canon_parsed(lambda: I["Conductor"].get_status(d))
+            res["rw"] = time.time() - t0
+
+        def writer():
+            t0 = time.time()
+            try:
+                gB.write_status(d)
+                res["w"] = "returned"
+            except Exception as e:
+                res["w"] = "raised %s: %s" % (type(e).__name__, e)
+            res["ww"] = time.time() - t0
+        ths = [threading.Thread(target=reader), threading.Thread(target=writer)]
+        for th in ths:
+            th.start()
+        for th in ths:
+            th.join(60)
+        if "r" not in res or "w" not in res:
+            return None, "get_status / write_status did not come back within 60 s while the lock was held"
+        if res["w"] != "returned":
+            return None, "write_status under a held lock " + res["w"]
+        obs["waited"] = [round(res["rw"], 2), round(res["ww"], 2)]
+        obs["answers"].append(res["r"])
+        obs["mid"] = text()
+        holder.stdin.write("\n")
+        holder.stdin.flush()
+        holder.wait(20)
+        holder = None
+        obs["answers"].append(canon_parsed(lambda: I["Conductor"].get_status(d)))
+        gB.write_status(d)
+        obs["answers"].append(canon_parsed(lambda: I["Conductor"].get_status(d)))
+        obs["end"] = text()
+        # what the writer hands to the file object, in the pieces a buffered text stream flushes
+        tmp = os.path.join(d, "x")
+        os.makedirs(tmp)
+        gB.write_status(tmp)
+        with open(os.path.join(tmp, "status.csv"), "r", newline="", encoding="utf-8") as f:
+            obs["new"] = f.read()
+        return obs, None
+    except Exception as e:
+        return None, "%s: %s" % (type(e).__name__, e)
+    finally:
+        EG.FileLock = real_FL
+        CM.FileLock = real_FL
+        if holder is not None:
+            holder.kill()
+        shutil.rmtree(d, ignore_errors=True)
+
+
+def g_lock_case(o):
+    new = o["new"]
+    chunks = [new[k:k + 8192] for k in range(0, len(new), 8192)] or [""]
+    ans = common.g_list(["None" if a == [] else "(Some %s)" % g_parsed(a) for a in o["answers"]])
+    return "(%s, %s, (%s, %s, %s))" % (g_str(o["old"]), common.g_list([g_str(c) for c in chunks]), ans,
+                                       g_str(o["mid"]), g_str(o["end"]))
+
+
+def check_timeout_scenario(ck, real_timeout):
+    obs, err = timeout_scenario(real_timeout, ck.seed)
+    if err:
+        ck.mismatch("the Timeout scenario could not be observed: " + err, None)
+        return
+    hdr = HEADER + "From MWF Require Import Status.Lock Status.LockCase.\n"
+    lit = g_lock_case(obs)
+    bad, errs = common.coq_failing("C12_lock", hdr, LOCK_CASE_TY, "lock_case_ok", [lit])
+    for e in errs:
+        ck.mismatch("coqc failed on cases file", None, e[1])
+    shown = {"answers": [a if isinstance(a, str) else ("{}" if a == [] else "table with %d rows" % len(a[0][1]))
+                         for a in obs["answers"]],
+             "waited_s_reader_writer": obs["waited"], "real_timeout": real_timeout,
+             "file_unchanged_by_writer_timeout": obs["mid"] == obs["old"], "final_is_new": obs["end"] == obs["new"]}
+    ck.notes["timeout_scenario"] = shown
+    ck.count("timeout-scenario", nontrivial=True)
+    if bad:
+        unmon, _ = common.coq_failing("C12_lock_why", hdr, LOCK_CASE_TY, "lock_case_monitor", [lit])
+        what = ("with .status.lock held elsewhere: get_status answers %s, status.csv after the writer's Timeout %s "
+                "the old table, at the end %s the new table"
+                % (shown["answers"], "is" if shown["file_unchanged_by_writer_timeout"] else "IS NOT",
+                   "is" if shown["final_is_new"] else "IS NOT"))
+        if unmon:
+            ck.violation("a status read/write under a held lock did not give a complete table: " + what,
+                         {"timeout_scenario": shown, "status_after_writer_timeout": obs["mid"][:2000]})
+        else:
+            ck.mismatch("Timeout scenario: implementation and Lock.scenario_model disagree: " + what,
+                        {"timeout_scenario": shown})
+
+
+# ----------------------------------------------------------------------------
 # (c) renderers
 # ----------------------------------------------------------------------------
 def render_smoke(table, title):
@@ -732,8 +1014,36 @@ def load_corpus():
     return out
 
 
+def load_corpus_hist():
+    out = []
+    for p in sorted(glob.glob(os.path.join(CORPUS, "*.json"))):
+        try:
+            c = json.load(open(p))
+        except Exception:
+            continue
+        c = c.get("case", c)
+        if isinstance(c, dict) and "hist" in c:
+            c["corpus_file"] = os.path.relpath(p, common.VERIF)
+            out.append(c)
+    return out
+
+
+def replay_history(c):
+    """re-run a stored history (scripted pins) -> [(descr, obs)] for its polls"""
+    h = c["hist"]
+    polls, _ = run_one_history(h["nodes"], h["cfg"], h.get("plan") or [[] for _ in h["nodes"]],
+                               random.Random(0), h.get("profile", "mixed"), len(h["pins"]),
+                               scripted_pins=h["pins"])
+    for d, _o in polls:
+        d["stream"] = "history-corpus" if c.get("corpus_file") else "history"
+        if c.get("corpus_file"):
+            d["corpus_file"] = c["corpus_file"]
+    return polls
+
+
 def strip_case(c):
-    return {k: v for k, v in c.items() if k in ("stream", "shape", "nodes", "ops", "corpus_file")}
+    return {k: v for k, v in c.items()
+            if k in ("stream", "shape", "nodes", "ops", "corpus_file", "hist", "poll", "status_after_poll")}
 
 
 def evaluate(tag, cases, fn, ty=None, lit=None):
@@ -765,20 +1075,26 @@ def classify(ck, tag, obs):
         ck.mismatch("coqc failed on cases file", None, e[1])
     if bad:
         sub = [usable[i] for i in bad]
-        disagree, errs2 = evaluate(tag + "_why", sub, "case_agrees")
+        # the monitor decides first: a concrete violation by the implementation ...
+        unmon, errs2 = evaluate(tag + "_why", sub, "case_monitor")
         for e in errs2:
             ck.mismatch("coqc failed on cases file", None, e[1])
+        nmodel = 0
         for j, (c, o) in enumerate(sub):
-            if j in disagree:
-                model = common.coq_eval(tag + "_model", HEADER,
-                                        "let '(g, recs, o) := %s in model_obs g 0 recs" % g_case(o))
+            if j in unmon:
+                ck.violation("status table read back by Conductor.get_status is not one row per step instance "
+                             "with its current fields (C12_ok false on the implementation): status.csv=%r parsed=%s"
+                             % ((o["text"] or "")[:400], json.dumps(o["parsed"])[:300]), strip_case(c))
+            else:
+                # ... otherwise model and implementation disagree
+                model = ""
+                if nmodel < 3:
+                    nmodel += 1
+                    model = common.coq_eval(tag + "_model", HEADER,
+                                            "let '(g, recs, o) := %s in model_obs g 0 recs" % g_case(o))
                 ck.mismatch("status.csv / get_status differ from render(status_rows)/parse",
                             strip_case(c),
                             "impl text=%r parsed=%r\nmodel (code points): %s" % (o["text"], o["parsed"], model[-3000:]))
-            else:
-                ck.violation("status table read back by Conductor.get_status is not one row per step instance "
-                             "with its current fields (C12_ok false on the implementation): parsed=%s"
-                             % (json.dumps(o["parsed"])[:300],), strip_case(c))
     return usable
 
 
@@ -831,7 +1147,17 @@ def run(ck):
     obs = observe(cases)
     usable = classify(ck, "C12", obs)
 
-    hist = {"stream": {}, "instances": {}, "shape": {}, "parsed": {}, "params_per_row": {}, "jobids": {}}
+    # (a') execution histories: status.csv after every poll (+ stored failing histories first)
+    hobs = []
+    for hc in load_corpus_hist():
+        hobs.extend(replay_history(hc))
+    more, hstat = history_polls(rng, THOROUGH_HIST if thorough else QUICK_HIST)
+    hobs.extend(more)
+    husable = classify_hist(ck, "C12_hist", hobs)
+    ck.notes["histories"] = hstat
+
+    hist = {"stream": {}, "instances": {}, "shape": {}, "parsed": {}, "params_per_row": {}, "jobids": {},
+            "history_poll_index": {}, "history_states_shown": {}}
 
     def bump(h, k):
         hist[h][str(k)] = hist[h].get(str(k), 0) + 1
@@ -846,8 +1172,21 @@ def run(ck):
         for nd in c["nodes"]:
             bump("params_per_row", len(nd["params"]))
             bump("jobids", len(nd["jobids"]))
+    for c, o in husable:
+        key = hashlib.sha1(json.dumps([o["adj"], o["recs"], o["subs"]], sort_keys=True).encode()).hexdigest()
+        ck.count(key, nontrivial=bool(o["subs"]))
+        bump("stream", "history")
+        bump("shape", c["shape"])
+        bump("parsed", o["parsed"] if isinstance(o["parsed"], str) else "table")
+        bump("history_poll_index", c["poll"] if c["poll"] < 6 else "6+")
+        for r in o["recs"]:
+            if r is not None:
+                bump("history_states_shown", r["state"])
+                bump("jobids", min(len(r["jobids"]), 3))
     for c, o in usable[len(corpus):len(corpus) + 400:97]:
         ck.sample({"case": strip_case(c), "status_csv": o["text"], "get_status": o["parsed"]})
+    for c, o in husable[5:6]:
+        ck.sample({"case": strip_case(c), "status_csv": o["text"], "adapter_submissions": o["subs"]}, limit=6)
 
     # known findings (K3): replayed on every run
     hits = known_hits(ck, usable)
@@ -887,6 +1226,9 @@ def run(ck):
                              "seconds": round(time.time() - t_r, 1)}
     ck.count("renderers", nontrivial=False, n=rendered)
 
+    # (b') Timeout branches against the model (thorough: the code's real 10 s)
+    check_timeout_scenario(ck, real_timeout=thorough)
+
     # (b) the real lock
     secs = THOROUGH_STRESS_S if thorough else QUICK_STRESS_S
     summary, first_bad = stress(secs, ck.seed)
@@ -907,7 +1249,13 @@ def run(ck):
         "nodes; edges against insertion order). Exhaustive: all 26 staged shapes over <=3 instances; every "
         "string of length <=2 over {a , LF CR ; : \" space} as step name / parameter value. A case is distinct by "
         "(adjacency table, records) and non-trivial when it has at least one instance.")
-    ck.cov["traces_validated_against_impl"] = len(usable)
+    ck.cov["rule"] += (
+        " History stream: real ExecutionGraph driven by the scripted scheduler (harness/exec_harness.py: random DAG "
+        "<=7 steps, throttle/attempts/dry-run, report profiles, cancel requests, submission failures); after EVERY "
+        "poll the real write_status + Conductor.get_status run; one case per poll = (graph, the implementation's own "
+        "records, status.csv, returned dict, adapter submissions so far); distinct by that tuple, non-trivial once a "
+        "job was submitted.")
+    ck.cov["traces_validated_against_impl"] = len(usable) + len(husable)
     ck.cov["input_distribution"] = hist
 
     def search():
@@ -941,6 +1289,20 @@ def replay(ck, path):
     os.makedirs(WORKDIR, exist_ok=True)
     doc = json.load(open(path))
     case = doc.get("case", doc)
+    if isinstance(case, dict) and "hist" in case:
+        polls = replay_history(case)
+        rc = 0
+        for d, o in polls:
+            if o["error"]:
+                print("poll %d: harness error %s" % (d["poll"], o["error"]))
+                rc = 1
+                continue
+            out = common.coq_eval("C12_replay", HEADER, "hcase_ok %s" % g_hcase(o))
+            ok = "true" in out.split(":")[0]
+            print("poll %d: status.csv=%r\n  get_status=%s\n  adapter submissions=%s\n  hcase_ok=%s"
+                  % (d["poll"], o["text"], json.dumps(o["parsed"])[:400], o["subs"], ok))
+            rc = rc or (0 if ok else 1)
+        return rc
     if not (isinstance(case, dict) and "nodes" in case and "ops" in case):
         print("replay: %s holds no graph case (kind=%s): %s" % (path, doc.get("kind"), doc.get("what")))
         if isinstance(case, dict) and "stress" in case:
